@@ -18,7 +18,7 @@ def _scratch():
 
 
 def _run(prop, repo, ev):
-    env = dict(os.environ, VERIF_EVIDENCE_DIR=ev)
+    env = dict(os.environ, VERIF_EVIDENCE_DIR=ev, VERIF_CACHE_KEEP="40")
     r = subprocess.run([os.path.join(VERIF, "vcheck"), prop, "--repo", repo], capture_output=True, text=True, env=env)
     rules = sorted(set(re.findall(r"^VIOLATION property=\S+ replay=\S+ rule=(\S+) ", r.stdout, flags=re.M)))
     return r.returncode, rules
@@ -29,23 +29,27 @@ def controls(ids, ev, props=None):
     cdir = os.path.join(VERIF, "controls")
     bad = 0; n = 0
     allp = props or ["C%02d" % i for i in range(1, 21)]
-    for cid in sorted(os.listdir(cdir)) if os.path.isdir(cdir) else []:
-        if ids and cid not in ids: continue
+    def one(cid):
         patch = os.path.join(cdir, cid, "patch.diff")
-        if not os.path.exists(patch): continue
         s = _scratch()
         try:
             a = subprocess.run(["git", "apply", patch], cwd=s, capture_output=True, text=True)
-            if a.returncode != 0:
-                print("control %s: patch does not apply to the current tree (skipped)" % cid); continue
-            fired = {}
+            if a.returncode != 0: return cid, None, 0
+            fired = {}; k = 0
             for p in allp:
-                rc, rules = _run(p, s, ev); n += 1
+                rc, rules = _run(p, s, ev); k += 1
                 if rc != 0: fired[p] = rules
-            print("control %-8s %s" % (cid, "silent (%d checks)" % len(allp) if not fired else "FALSE ALARM %s" % fired), flush=True)
-            bad += bool(fired)
+            return cid, fired, k
         finally:
             shutil.rmtree(s, ignore_errors=True)
+    cids = [c for c in (sorted(os.listdir(cdir)) if os.path.isdir(cdir) else []) if (not ids or c in ids) and os.path.exists(os.path.join(cdir, c, "patch.diff"))]
+    from concurrent.futures import ThreadPoolExecutor, as_completed
+    with ThreadPoolExecutor(max_workers=int(os.environ.get("VERIF_JOBS", "6"))) as ex:
+        for fu in as_completed([ex.submit(one, c) for c in cids]):
+            cid, fired, k = fu.result(); n += k
+            if fired is None: print("control %s: patch does not apply to the current tree (skipped)" % cid, flush=True); continue
+            print("control %-8s %s" % (cid, "silent (%d checks)" % len(allp) if not fired else "FALSE ALARM %s" % fired), flush=True)
+            bad += bool(fired)
     return n, bad
 
 
